@@ -417,6 +417,12 @@ V_C10(S, e, T, aux) ==
   THEN Tag(\A v \in Vs(T), t \in Traders :
               (t # e.tx.s /\ ~(EngOp(e, "liquidate") /\ e.tx.a.trader = t))
                  => T.eng.pos[v][t] = S.eng.pos[v][t], "C10.frame")
+       \* ... and neither does the position the engine's own Position query answers for them (a record the
+       \* engine can no longer find has been altered, whatever the storage still holds)
+       \cup Tag(("posq" \in DOMAIN T.eng /\ "posq" \in DOMAIN S.eng)
+                  => \A v \in Vs(T) \cap Vs(S), t \in Traders :
+                        (t # e.tx.s /\ ~(EngOp(e, "liquidate") /\ e.tx.a.trader = t))
+                           => T.eng.posq[v][t] = S.eng.posq[v][t], "C10.frame_view")
        \cup Tag(T.eng.pos_extra = S.eng.pos_extra
                 \/ \A i \in 1..Len(T.eng.pos_extra) : T.eng.pos_extra[i].trader = e.tx.s, "C10.extra")
   ELSE IF e.kind = "query" THEN Tag(Unchanged(e), "C10.query")
